@@ -497,7 +497,8 @@ void AbstractDiscreteDistribution::discretizeEqualIntervals()
   allBounds.push_back(upperBound);
   for (size_t i = 0; i < numberOfCategories_; ++i)
   {
-    distribution_[values[i]] = (pProb(allBounds[i + 1]) - pProb(allBounds[i])) / condProb;
+    // a domain without any mass under the parent: uniform classes, as in the equal-proportion scheme
+    distribution_[values[i]] = (condProb > 0) ? (pProb(allBounds[i + 1]) - pProb(allBounds[i])) / condProb : 1. / static_cast<double>(numberOfCategories_);
   }
 
   return;
